@@ -6,7 +6,7 @@ CLAUSE = ("a version is accepted iff its parent is the latest (any parent when n
           "its parent to every handle; an unknown parent yields 'no such version'; a stored snapshot is returned "
           "intact with its version")
 
-KINDS = [("local", 150, 2000), ("cloud", 60, 800), ("git", 24, 300), ("gitremote", 24, 300)]
+KINDS = [("local", 150, 2000), ("cloud", 60, 800), ("git", 24, 300), ("gitremote", 24, 300), ("http", 40, 600)]
 
 
 def run(ck):
@@ -25,12 +25,14 @@ def run(ck):
         path = ck.write_replay("theorem", {"property": ck.prop, "kind": "a theorem of coq/theories/Properties/C08.v no longer checks",
                                            "obligations": ck.obligations, "log": getattr(ck, "build_log", "")[-4000:]})
         ck.violation(path, no_input=True)
-    ck.notes.append("the HTTP client (SyncServer) is NOT exercised by this check: no conformant sync server is available "
-                    "offline and the harness does not yet implement one; its status/header mapping rests on the crate's own tests")
     return ck.finish(
         "proof",
         "per backend (local on-disk with 1-3 handles on one directory; object store over the in-memory service "
-        "with 1-3 handles; git local-only; git with a bare remote and two clones, real git processes): sequences "
+        "with 1-3 handles; git local-only; git with a bare remote and two clones, real git processes; the HTTP client "
+        "against a harness-side HTTP/1.1 server that implements docs/src/http.md over an in-memory chain, which also "
+        "answers 4-10 requests per case in ways no conforming server would - status 500/410, missing or malformed "
+        "id headers, wrong content type, corrupted or truncated bodies - each of which must come back as an error, "
+        "and which opens every body it received under (secret, client id as salt, id in the url)): sequences "
         "of 3-12 calls (add-version with latest / stale / unknown / nil parent, get-child-version of known and "
         "unknown parents, add-/get-snapshot) with empty, non-UTF-8, 20 kB (thorough: 1 MB) and Unicode payloads; "
         "distinct = different call scripts; non-trivial = at least three calls and one accepted version",
@@ -38,7 +40,8 @@ def run(ck):
         "specification evaluated in Coq (ids canonicalised by first appearance), returned bytes with the "
         "submitted ones, and stored git files are checked for the sealed form.",
         trusted_extra=["git 2.39 binary, SQLite, the hook's in-memory object store are substrates",
-                       "HTTP backend and AWS/GCP services are not exercised (no network)"])
+                       "the harness HTTP server (harness/src/httpsrv.rs) stands for taskchampion-sync-server; reqwest, hyper "
+                       "and tokio are substrates; TLS is not used; AWS/GCP services are not exercised (no network)"])
 
 
 def replay(ck, path):
